@@ -141,8 +141,20 @@ def render_expr(x):
 # set of states reachable from the set S by one expansion of `seq`.
 # --------------------------------------------------------------------------
 class Spec:
-    def __init__(self, tree, names, path=None):
-        self.objs = heap_list(tree)
+    def __init__(self, tree, names, path=None, extra=(), m=False):
+        """`extra`: further model trees (builtin models), numbered after `tree`;
+        `m`: the expression has the '+m:' flag (they are searched from a model root)"""
+        self.objs = []
+        self.off = []  # per object: number of the root of its tree
+        self.extra_roots = []
+        for k, t in enumerate([tree] + list(extra or ())):
+            base = len(self.objs)
+            if k > 0:
+                self.extra_roots.append(base)
+            for n, par in heap_list(t):
+                self.objs.append((n, None if par is None else par + base))
+                self.off.append(base)
+        self.m = m
         self.names = names
         self.given = path  # None: paths are not tracked (third component stays 0)
 
@@ -170,10 +182,30 @@ class Spec:
         if name == "s":
             return [self.index_of(n["s"])] if n.get("s") is not None else []
         if name == "r":
-            return [n["r"]] if n.get("r") is not None else []
+            return [n["r"] + self.off[o]] if n.get("r") is not None else []
         if name == "rs":
-            return list(n.get("rs") or [])
+            return [t + self.off[o] for t in n.get("rs") or []]
         return []
+
+    def cands(self, e, src, n):
+        """elements of attribute e.name of src the step may move to"""
+        ts = self.attr(src, e["name"])
+        if e["mode"] == "t":
+            return ts
+        if e["mode"] == "f":
+            return [t for t in ts if self.name_of(t) == e["fixed"]]
+        if n == 0:
+            return []
+        return [t for t in ts if self.name_of(t) == self.names[len(self.names) - n]]
+
+    def nav_source(self, e, src, n):
+        """the object whose attribute is followed: `src`, or with '+m:' and a model root
+        the first of (src, other models…) in which the step finds anything"""
+        if self.m and self.parent(src) is None:
+            for st in [src] + self.extra_roots:
+                if self.cands(e, st, n):
+                    return st
+        return src
 
     def name_of(self, o):
         return self.objs[o][0].get("name")
@@ -196,20 +228,18 @@ class Spec:
         out = set()
         if k == "nav":
             for (o, n, j) in S:
-                src = self.root(o) if first else o
-                for t in self.attr(src, e["name"]):
+                src = self.nav_source(e, self.root(o) if first else o, n)
+                for t in self.cands(e, src, n):
                     if e["mode"] == "t":
                         out.add((t, n, j))
                     elif e["mode"] == "f":
-                        if self.name_of(t) == e["fixed"]:
-                            st = self.named((o, n, j), t)
-                            if st:
-                                out.add(st)
+                        st = self.named((o, n, j), t)
+                        if st:
+                            out.add(st)
                     else:
-                        if n > 0 and self.name_of(t) == self.names[len(self.names) - n]:
-                            st = self.named((o, n - 1, j), t)
-                            if st:
-                                out.add(st)
+                        st = self.named((o, n - 1, j), t)
+                        if st:
+                            out.add(st)
             return out
         if k == "parent":
             for (o, n, j) in S:
@@ -301,6 +331,10 @@ class Spec:
         return {o for (o, n, j) in S if n == 0 and j == need and self.conforms(o, cls)}
 
 
+def spec_of(case, ns, path=None):
+    return Spec(case["heap"], ns, path, extra=case.get("extra"), m="m" in case["expr"].get("flags", ""))
+
+
 def split_name(text, split):
     return [p for p in text.split(split) if p]
 
@@ -311,15 +345,18 @@ def split_name(text, split):
 _MM = {}
 
 
-def metamodel(cls, rrel, split, reg=None):
+def metamodel(cls, rrel, split, reg=None, builtin=None):
     """metamodel of the model language; r / rs are resolved by object number"""
     key = (cls, rrel, split, reg)
-    if key in _MM:
+    if builtin is None and key in _MM:
         return _MM[key]
     use_repo()
     from textx import get_model, metamodel_from_str
 
-    mm = metamodel_from_str(grammar_text(cls, rrel, split))
+    if builtin is None:
+        mm = metamodel_from_str(grammar_text(cls, rrel, split))
+    else:
+        mm = metamodel_from_str(grammar_text(cls, rrel, split), builtin_models=builtin)
 
     def by_number(obj, attr, obj_ref):
         return model_objects(get_model(obj))[int(obj_ref.obj_name)]
@@ -328,6 +365,8 @@ def metamodel(cls, rrel, split, reg=None):
     if reg is not None:
         sp["Ref.ref"] = reg
     mm.register_scope_providers(sp)
+    if builtin is not None:
+        return mm
     if len(_MM) > 64:
         _MM.clear()
     _MM[key] = mm
@@ -403,14 +442,25 @@ def run_case(case):
     cls = case.get("cls")
     out = {"expr": etext}
 
+    others = []  # builtin models ('+m:')
+
     def found(res_obj, path, model):
-        num = {id(o): i for i, o in enumerate(model_objects(model))}
+        allobjs = model_objects(model) + [o for m in others for o in model_objects(m)]
+        num = {id(o): i for i, o in enumerate(allobjs)}
         return {"res": "found", "obj": num.get(id(res_obj), -1),
                 "path": None if path is None else [num.get(id(p), -1) for p in path]}
 
     try:
         if mode == "find":
             mm = metamodel("Item", "a", split)
+            if case.get("extra"):
+                from textx.scoping import ModelRepository
+
+                repo = ModelRepository()
+                for t in case["extra"]:
+                    others.append(mm.model_from_str(render_body(t, 0)))
+                    repo.add_model(others[-1])
+                mm = metamodel("Item", "a", split, builtin=repo)
             model = mm.model_from_str(text)
             objs = model_objects(model)
             tree = R.parse(etext)
@@ -618,6 +668,16 @@ def gen_case(rng, mode=None, focus=None):
     else:
         add_refs(rng, root, ref_at=at, ref_text="?")
         frm = next(i for i, (n, _) in enumerate(heap_list(root)) if n["cls"] == "Ref")
+    extra = []
+    if mode == "find" and rng.chance(0.12):  # '+m:' with builtin models
+        flags = rng.weighted([("m", 5), ("pm", 3), ("mp", 2)])
+        for _ in range(rng.randint(1, 2)):
+            t = gen_heap(rng, max_objs=5)
+            add_refs(rng, t)
+            extra.append(t)
+    elif mode == "find" and rng.chance(0.03):  # the flag without other models
+        flags = "m"
+    mflag = "m" in flags
     # expression, class and name: mostly such that a target exists
     want = rng.chance(0.8)
     names = all_names()
@@ -629,12 +689,12 @@ def gen_case(rng, mode=None, focus=None):
         ns = rng.choice(names)
         if not want:
             break
-        good = [c for c in rng.shuffle(names) if Spec(root, c).targets(seq, frm, cls)]
+        good = [c for c in rng.shuffle(names) if Spec(root, c, extra=extra, m=mflag).targets(seq, frm, cls)]
         if good and focus:
             # prefer matches below the start object (reached through the start object itself)
             sp0 = Spec(root, [])
             below = {i for i in range(len(sp0.objs)) if i != frm and frm in ancestors(sp0, i)}
-            deep = [c for c in good if Spec(root, c).targets(seq, frm, cls) & below]
+            deep = [c for c in good if Spec(root, c, extra=extra, m=mflag).targets(seq, frm, cls) & below]
             if deep and rng.chance(0.7):
                 good = deep
         if good:
@@ -647,6 +707,8 @@ def gen_case(rng, mode=None, focus=None):
         text = split + text.replace(split, split + split, 1)
     case = {"mode": mode, "heap": root, "expr": {"flags": flags, "seq": seq}, "from": frm,
             "name": text, "split": split, "cls": cls}
+    if extra:
+        case["extra"] = extra
     if mode != "find":
         heap_list(root)[frm][0]["text"] = text
     else:
@@ -681,7 +743,7 @@ def check_property(case, obs):
     if ns is None:
         ns = split_name(case["name"], case.get("split", "."))
     seq, frm, cls = case["expr"]["seq"], case["from"], case.get("cls")
-    spec = Spec(case["heap"], ns)
+    spec = spec_of(case, ns)
     res = obs.get("res")
     if res == "error":
         return f"evaluation raised {obs.get('type')}: {obs.get('msg')}"
@@ -707,8 +769,8 @@ def check_property(case, obs):
             return "no proxy path although '+p:' is given"
         if path[-1] != t:
             return f"proxy path {path} does not end in the target {t}"
-        ok = t in Spec(case["heap"], ns, path).targets(seq, frm, cls) or \
-            t in Spec(case["heap"], ns, path[:-1]).targets(seq, frm, cls)
+        ok = t in spec_of(case, ns, path).targets(seq, frm, cls) or \
+            t in spec_of(case, ns, path[:-1]).targets(seq, frm, cls)
         if not ok:
             return f"proxy path {path} is not the list of named objects of an expansion reaching {t}"
     elif obs.get("path") is not None:
@@ -821,6 +883,12 @@ def shrink_case(case):
         yield dict(case, expr=dict(case["expr"], seq=s))
     if case["expr"].get("flags"):
         yield dict(case, expr=dict(case["expr"], flags=""))
+    if case.get("extra"):
+        for i in range(len(case["extra"])):
+            c = dict(case, extra=case["extra"][:i] + case["extra"][i + 1:])
+            if not c["extra"]:
+                del c["extra"]
+            yield c
     if case.get("unres"):
         for i in range(len(case["unres"])):
             yield dict(case, unres=case["unres"][:i] + case["unres"][i + 1:])
@@ -831,10 +899,11 @@ def shrink_case(case):
 # --------------------------------------------------------------------------
 # the heap as the Lean model sees it
 # --------------------------------------------------------------------------
-def model_heap(tree):
-    sp = Spec(tree, [])
+def model_heap(tree, extra=()):
+    sp = Spec(tree, [], extra=extra)
     n = len(sp.objs)
     return {
+        "extra_roots": sp.extra_roots,
         "parent": [sp.parent(o) for o in range(n)],
         "name": [sp.name_of(o) for o in range(n)],
         "conf": [sorted(CONF[sp.objs[o][0]["cls"]]) for o in range(n)],
@@ -879,7 +948,9 @@ class Prop(Check):
     THEOREMS = [
         "Rrel.C11_sound",
         "Rrel.C11_complete",
-        "Rrel.C11_resolves_partial",
+        "Rrel.C11_no_postponed",
+        "Rrel.C11_terminates",
+        "Rrel.C11_resolves",
         "Rrel.C11_precedence",
         "Rrel.C11_path",
         "Rrel.C11_fuel_stable",
@@ -893,8 +964,20 @@ class Prop(Check):
             "with and without '+p:') x generated models (<= 15 nested named/unnamed objects of 3 classes, name collisions, "
             "single/list cross references with cycles) x reference names of 1..3 parts, through rrel.find, grammar-attached "
             "RREL and registered RREL strings; non-trivial = the reference resolves")
-    MODELLED = ""
-    ASSUMPTIONS = []
+    MODELLED = ("hand-modelled: textx/scoping/rrel.py get_next_matches of RRELBase/Navigation/Parent/Dots/Brackets/Sequence/"
+                "ZeroOrMore/Path, the visited set of find_object_with_path, find / ReferenceProxy path, the '+m:' start list, "
+                "Postponed, name splitting (Rrel.eval in CPS with the visited set threaded, Rrel.find, Rrel.proxyPath, "
+                "Rrel.splitName); tie X: outcome, resolved object and proxy path on the parsed expression tree (node "
+                "identities from the real parser) vs rrel.find, grammar-attached RREL and registered RREL strings; the heap "
+                "description the model gets is cross-checked against the loaded objects; not modelled: prevent_doubles "
+                "(unobservable, see Rrel.lean), navigation into primitive-valued attributes, RRELImportURI model loading, "
+                "local_models of a multi-file repository (only builtin models feed the '+m:' list), textx_isinstance itself "
+                "(a parameter of the model)")
+    ASSUMPTIONS = [
+        "navigated attributes hold objects, lists of objects or None (not primitives); parent chains are acyclic",
+        "node identities of one expression tree are pairwise distinct (Python object identity)",
+        "C11_terminates / C11_resolves: the object graph is finite (FinHeap); C11_resolves: no attribute is unresolved",
+    ]
     FUEL = 1000000
 
     def gen(self, rng, n, tier):
@@ -905,7 +988,7 @@ class Prop(Check):
             case = gen_case(r)
             yield case
             produced += 1
-            if tier != "quick" and case["mode"] == "find" and r.chance(0.1):
+            if tier != "quick" and case["mode"] == "find" and r.chance(0.04):
                 # the same model and expression with every reference name of up to 3 parts
                 for ns in all_names():
                     c = dict(case, name=case["split"].join(ns))
@@ -929,7 +1012,11 @@ class Prop(Check):
             req["ns"] = list(case["as_list"])
         else:  # the model splits the reference text itself
             req["text"], req["sep"] = case["name"], case.get("split", ".")
-        req.update(model_heap(case["heap"]))
+        h = model_heap(case["heap"], case.get("extra"))
+        roots = h.pop("extra_roots")
+        req.update(h)
+        if obs["tree"]["m"]:
+            req["extra"] = roots
         return req
 
     def compare(self, case, obs, out):
@@ -957,6 +1044,8 @@ class Prop(Check):
 
     def sample_view(self, case, obs):
         return {"mode": case["mode"], "expr": obs.get("expr"), "model_text": render_body(case["heap"], 0),
+                "builtin_models": [render_body(t, 0) for t in case.get("extra") or []],
+                "unresolved": case.get("unres") or [],
                 "from": case["from"], "name": case["name"], "cls": case.get("cls"),
                 "impl": {k: obs.get(k) for k in ("res", "obj", "path", "type")}}
 
